@@ -640,6 +640,15 @@ def holdsC01Cycles (cfg : KillCfg) (perTick : List (List View × List View)) (ti
       | _ => pure ()
   return viol.eraseDups
 
+/-- C04 on the hook path: a dry kill plugin has no effect at the libc boundary on any tick of a deferred kill cycle either -/
+def holdsC04Dry (cfg : KillCfg) (ticks : List ImplTick) : List String :=
+  if !cfg.dry then [] else
+  let bad := ticks.any fun t => t.evs.any fun s => match s.ev with
+    | .k (.kill _ _) _ _ _ | .k (.setxattr _ _ _ _ _) _ _ _ | .k (.write _ _ _) _ _ _
+    | .k (.pidfdOpen _ _) _ _ _ | .k (.mrelease _ _) _ _ _ | .k .statKills _ _ _ => true
+    | _ => false
+  if bad then ["C04.dry_no_effects_across_hook_wait"] else []
+
 /-! ## one scenario -/
 
 def count (l : List String) (x : String) : Nat := (l.filter (· == x)).length
@@ -692,12 +701,13 @@ def handle (j : Json) : Json := Id.run do
   -- the scenario's `prop` says whose clauses decide `holds` (C07 by default; C03 / C17 run this engine as a second pass)
   let prop := jstr sc "prop"
   let allViol := (hs.viol ++ holdsC03Cycles kcfg (tins0.map fun (_, _, roots) => roots) impls ++
-    holdsC01Cycles kcfg (tins0.map fun (_, views, roots) => (views, roots)) impls).eraseDups
+    holdsC01Cycles kcfg (tins0.map fun (_, views, roots) => (views, roots)) impls ++ holdsC04Dry kcfg impls).eraseDups
   let viol := allViol.filter fun c =>
     if prop == "C03" then c.startsWith "C03."
     else if prop == "C01" then c.startsWith "C01."
+    else if prop == "C04" then c.startsWith "C04."
     else if prop == "C17" then c.startsWith "return_async_iff_hook_outstanding"
-    else !(c.startsWith "C03." || c.startsWith "C01.")
+    else !(c.startsWith "C03." || c.startsWith "C01." || c.startsWith "C04.")
   -- accepts: run the model
   let env := envOf impls
   -- cgroups of tick i that are gone (removed / re-created) on some later tick: where the trace leaves the order of a
